@@ -97,6 +97,12 @@ def is_name_pipeline(v):
     return base == CMD and seen_lower
 
 
+def reply_ordinal_in_text(txt):
+    import re
+    m = re.findall(r'reply#(\d+)', txt)
+    return int(m[-1]) if m else None
+
+
 class Scenario(UnrollMixin, PrimHooks):
     """Decides the primitive's tests from (request name, every read delivers a line | nothing
     ever arrives)."""
@@ -113,6 +119,13 @@ class Scenario(UnrollMixin, PrimHooks):
     def loop(self, interp, node, st):
         return self.unroll_loop(interp, node, st)
 
+    def nonempty(self, ordinal):
+        """Is the read with this ordinal a line?  `lines` is True / False (all reads) or a set of
+        the ordinals at which a line arrives (delay schedules of the thorough tier)."""
+        if isinstance(self.lines, (set, frozenset)):
+            return ordinal in self.lines
+        return bool(self.lines)
+
     def text_use(self, v, what, line=0):
         if type_of(v) == 'bytes' and self.bytes_used is None:
             self.bytes_used = 'a reply that is still bytes is used as text (%s)' % what
@@ -127,14 +140,23 @@ class Scenario(UnrollMixin, PrimHooks):
                 if at[0] == 'f' and at[1] == 'LEN':
                     txt = repr(at[2][0])
                     if 'reply#' in txt or 'havoc' in txt:
-                        assign[at] = Sym.const(6 if self.lines else 0)
+                        if self.lines == 'blank':
+                            # every read delivers a blank line "\r\n": not empty, but nothing is
+                            # left after stripping
+                            assign[at] = Sym.const(0 if 'strip' in txt else 2)
+                        else:
+                            assign[at] = Sym.const(6 if self.nonempty(reply_ordinal_in_text(txt))
+                                                   else 0)
                     else:
                         return None
                 else:
                     return None
             return fold_cond(Cmp(cond.op, cond.a.subs(assign), cond.b))
         if isinstance(cond, Truthy) and mentions_reply(cond.v):
-            return self.lines
+            if self.lines == 'blank':
+                return 'strip' not in repr(cond.v)
+            ords = reply_ordinals(cond.v) - {-1}
+            return self.nonempty(max(ords) if ords else None)
         if isinstance(cond, In) and isinstance(cond.container, Tup) and all(
                 isinstance(x, Str) and x.is_lit() for x in cond.container.items):
             self.name_tests += 1
@@ -312,6 +334,23 @@ def check_alignment(ck, prog, which):
                           key='%s::returned-line' % q)
             ck.ob('C07-D2-text-discipline', inst, sc.bytes_used is None,
                   '%s: %s' % (q, sc.bytes_used), fn.loc(), key='%s::bytes-as-text' % q)
+        # a blank line ("\r\n", e.g. the data line of QT on a board without a nickname) is a
+        # line, not an empty read: it must be consumed as the awaited line
+        sc = Scenario(name, 'blank')
+        try:
+            outs = run_prim(prog, fn, sc)
+            counts = {len(reads(o)) for o in outs if o.kind == 'return'}
+            blank_ok = counts == {lines_expected} and not sc.uncountable
+            if which == 'query':
+                blank_ok = blank_ok and all(reply_ordinals(o.value) == {0} for o in outs
+                                            if o.kind == 'return')
+        except Unbounded:
+            counts, blank_ok = {'unbounded'}, False
+        ck.ob('C07-D4-blank-line-is-a-line', '%s[%s %r]' % (q, kind, name), blank_ok,
+              '%s for a %s (%r) performs %s read(s) when every read delivers a blank line; a blank '
+              'line is the awaited line (only a zero-length read is a timeout), so exactly %d '
+              'line(s) must be consumed and the first returned' % (q, kind, name, sorted(
+                  counts, key=str), lines_expected), fn.loc(), key='%s::blank-line:%s' % (q, kind))
         if which == 'query':
             ck.ob('C07-D4-name-test-present', '%s[%r]' % (q, name), sc.name_tests >= 1,
                   '%s never tests the request name against the no-OK table' % q, fn.loc(),
@@ -354,6 +393,63 @@ def check_loops(ck, prog, which):
     return n
 
 
+def check_delays(ck, prog, which):
+    """Thorough tier: a line arrives after k empty reads (k = 0, 1, 99, 100: within the budget;
+    101: too late).  Reads performed and value returned must follow the budget exactly."""
+    fn = prog.func('ebb_serial.' + which)
+    q = fn.qualname
+    names = [('qb', 2), ('v', 1)] if which == 'query' else [('sm', 1)]
+    for name, n_lines in names:
+        for k1 in (0, 1, 99, 100, 101):
+            for k2 in ((0, 1, 100, 101) if n_lines == 2 else (None,)):
+                # ordinals at which lines arrive
+                arrive = set()
+                first_end = k1 if k1 <= RETRY_BOUND else None      # ordinal of the data line
+                reads1 = (k1 + 1) if k1 <= RETRY_BOUND else RETRY_BOUND + 1
+                if first_end is not None:
+                    arrive.add(first_end)
+                want = reads1
+                if n_lines == 2:
+                    start2 = reads1
+                    if k2 <= RETRY_BOUND:
+                        arrive.add(start2 + k2)
+                        want += k2 + 1
+                    else:
+                        want += RETRY_BOUND + 1
+                sc = Scenario(name, frozenset(arrive))
+                try:
+                    outs = run_prim(prog, fn, sc)
+                except Unbounded as exc:
+                    ck.ob('C07-D4-wait-bound', '%s[%s delays]' % (q, name), False,
+                          '%s: the loop at line %s never gives up' % (q, exc.args[0]), fn.loc(),
+                          key='%s::wait-bound' % q)
+                    continue
+                if sc.uncountable:
+                    raise AnalysisError('%s: delay schedule not decided' % q)
+                counts = {len(reads(o)) for o in outs if o.kind == 'return'}
+                inst = '%s[%r, data line after %d empty reads%s]' % (
+                    q, name, k1, '' if k2 is None else ', OK after %d' % k2)
+                ck.ob('C07-D4-delayed-replies', inst, counts == {want},
+                      '%s performs %s read(s) when the data line comes after %d empty reads%s; '
+                      'expected %d: each awaited line is given the first read plus %d re-reads, '
+                      'and a line that arrives within that budget ends the wait at once'
+                      % (q, sorted(counts), k1, '' if k2 is None else ' and the OK after %d' % k2,
+                         want, RETRY_BOUND), fn.loc(), key='%s::delays' % q)
+                if which == 'query':
+                    for o in outs:
+                        if o.kind != 'return':
+                            continue
+                        ords = reply_ordinals(o.value)
+                        if first_end is not None:
+                            ok = ords == {first_end}
+                        else:
+                            ok = type_of(o.value) == 'str' and not (ords - {RETRY_BOUND, -1})
+                        ck.ob('C07-D4-returns-data-line', inst, ok,
+                              '%s returns a value built from read(s) %s; the data line was read '
+                              '%s' % (q, sorted(ords), first_end), fn.loc(),
+                              key='%s::returned-line' % q)
+
+
 def run(ck, prog, tier):
     ck.explanation = (
         'ebb_serial.query/command interpreted abstractly (parsed source; nothing runs) with an '
@@ -374,4 +470,6 @@ def run(ck, prog, tier):
         check_prim(ck, prog, which)
         check_alignment(ck, prog, which)
         n_loops += check_loops(ck, prog, which)
+        if tier == 'thorough':
+            check_delays(ck, prog, which)
     ck.floor('while-form retry loops analysed', n_loops, 0)
